@@ -8,6 +8,8 @@ use crate::util::*;
 
 pub trait Elem: Default + Copy + PartialEq + std::fmt::Debug + 'static {
     const NAME: &'static str;
+    /// cell values used by the drivers are 0..KMOD-1 (0 = the default value of the element type)
+    const KMOD: i64 = 10;
     fn from_i(i: i64) -> Self;
     fn to_i(self) -> i64;
 }
@@ -30,6 +32,21 @@ elem!(f32, "f32");
 elem!(i64, "i64");
 
 const K: i64 = 10;
+
+// Element types whose default value is NOT the all-zero bit pattern: the alphabet symbols (the default nucleotide is N,
+// rank 4; the default amino acid is X, rank 20).  Value v of the abstract table <-> symbol of rank (default + v) mod K.
+impl Elem for lightmotif::abc::Nucleotide {
+    const NAME: &'static str = "nucleotide";
+    const KMOD: i64 = 5;
+    fn from_i(i: i64) -> Self { use lightmotif::abc::Alphabet; lightmotif::abc::Dna::symbols()[((4 + i) % 5) as usize] }
+    fn to_i(self) -> i64 { use lightmotif::abc::Symbol; ((self.as_index() as i64) + 5 - 4) % 5 }
+}
+impl Elem for lightmotif::abc::AminoAcid {
+    const NAME: &'static str = "aminoacid";
+    const KMOD: i64 = 21;
+    fn from_i(i: i64) -> Self { use lightmotif::abc::Alphabet; lightmotif::abc::Protein::symbols()[((20 + i) % 21) as usize] }
+    fn to_i(self) -> i64 { use lightmotif::abc::Symbol; ((self.as_index() as i64) + 21 - 20) % 21 }
+}
 
 struct Pair<T: Elem, C: ArrayLength + PartialEq> {
     a: DenseMatrix<T, C>,
@@ -200,7 +217,7 @@ fn apply<T: Elem, C: ArrayLength + PartialEq>(p: &mut Pair<T, C>, o: &Value) -> 
     }
 }
 
-fn random_op<C: ArrayLength + PartialEq>(rng: &mut impl Rng, na: usize, nb: usize) -> Value {
+fn random_op<C: ArrayLength + PartialEq>(rng: &mut impl Rng, na: usize, nb: usize, kmod: i64) -> Value {
     let c = C::USIZE;
     let tgt = if rng.gen_bool(0.7) { "a" } else { "b" };
     let n = if tgt == "a" { na } else { nb };
@@ -220,22 +237,22 @@ fn random_op<C: ArrayLength + PartialEq>(rng: &mut impl Rng, na: usize, nb: usiz
             4 => json!({"op":"reserve","tgt":tgt,"n":rng.gen_range(0..80)}),
             5 | 6 | 7 => {
                 if n == 0 { continue; }
-                json!({"op":"set","tgt":tgt,"i":rng.gen_range(1..=n),"j":rng.gen_range(1..=c),"v":rng.gen_range(1..K),
+                json!({"op":"set","tgt":tgt,"i":rng.gen_range(1..=n),"j":rng.gen_range(1..=c),"v":rng.gen_range(1..kmod),
                        "how": if rng.gen_bool(0.5) {"coord"} else {"row"}})
             }
             8 => {
                 if n == 0 { continue; }
-                let row: Vec<i64> = (0..c).map(|_| rng.gen_range(0..K)).collect();
+                let row: Vec<i64> = (0..c).map(|_| rng.gen_range(0..kmod)).collect();
                 json!({"op":"set_row","tgt":tgt,"i":rng.gen_range(1..=n),"row":row})
             }
-            9 => json!({"op":"fill","tgt":tgt,"v":rng.gen_range(0..K)}),
+            9 => json!({"op":"fill","tgt":tgt,"v":rng.gen_range(0..kmod)}),
             10 => {
                 let r = rng.gen_range(0..5);
-                let rows: Vec<Vec<i64>> = (0..r).map(|_| (0..c).map(|_| rng.gen_range(0..K)).collect()).collect();
+                let rows: Vec<Vec<i64>> = (0..r).map(|_| (0..c).map(|_| rng.gen_range(0..kmod)).collect()).collect();
                 json!({"op":"from_rows","tgt":tgt,"rows":rows})
             }
             11 => json!({"op":"clone_to_other","tgt":tgt}),
-            12 => json!({"op":"iter_mut_bump","tgt":tgt,"k":K}),
+            12 => json!({"op":"iter_mut_bump","tgt":tgt,"k":kmod}),
             13 => json!({"op":"iter","tgt":tgt}),
             14 => json!({"op":"iter_rev","tgt":tgt}),
             15 => {
@@ -258,9 +275,9 @@ fn record_one<T: Elem, C: ArrayLength + PartialEq>(rec: &mut Recorder, seed: u64
     let mut rng = rng(seed, stream);
     let mut p: Pair<T, C> = Pair { a: DenseMatrix::new(0), b: DenseMatrix::new(0) };
     rec.reset();
-    rec.emit(json!({"ev":"dense_cfg","elem":T::NAME,"C":C::USIZE,"K":K}));
+    rec.emit(json!({"ev":"dense_cfg","elem":T::NAME,"C":C::USIZE,"K":T::KMOD}));
     for _ in 0..len {
-        let o = random_op::<C>(&mut rng, p.a.rows(), p.b.rows());
+        let o = random_op::<C>(&mut rng, p.a.rows(), p.b.rows(), T::KMOD);
         let opn = o["op"].as_str().unwrap().to_string();
         let tgt = o["tgt"].as_str().unwrap().to_string();
         let pre_rows = if tgt == "a" { p.a.rows() } else { p.b.rows() };
@@ -308,6 +325,8 @@ pub fn record(rec: &mut Recorder, seed: u64, thorough: bool) {
     all_c!(u32);
     all_c!(f32);
     all_c!(i64);
+    all_c!(lightmotif::abc::Nucleotide);
+    all_c!(lightmotif::abc::AminoAcid);
 }
 
 // ------------------------------------------------------------------ replay (spec -> impl)
@@ -376,6 +395,7 @@ pub fn replay(path: &str) -> Value {
                 replay_one::<u32, $c>(&hist, &mut mismatches, &mut steps, bi);
                 replay_one::<f32, $c>(&hist, &mut mismatches, &mut steps, bi);
                 replay_one::<i64, $c>(&hist, &mut mismatches, &mut steps, bi);
+                replay_one::<lightmotif::abc::Nucleotide, $c>(&hist, &mut mismatches, &mut steps, bi);
             }};
         }
         match c {
